@@ -230,9 +230,61 @@ func (m *Model) Step(c Call, o Outcome) []Mismatch {
 		}
 
 		return m.userVal(o, name, m.Users[name])
+	case "AdminUser", "AdminGroup":
+		return m.accessor(c, o)
 	}
 
 	panic("c15 harness: unknown call " + c.M)
+}
+
+// accessor judges the accessors of the identity manager the statement names.
+//
+// General lesson: the lookups are not the only way a value leaves the object.
+// An accessor that answers "which entry is the administrator" has a model
+// answer in EVERY state, like a lookup, and it is a constant of the instance:
+// the built-in entries with id 0 and the administrator names of the OS type,
+// whatever has since been deleted, or added again, under those names (a name
+// is not an identity: the entry now registered under the administrator's name
+// may be an ordinary one with a fresh id). An accessor that is asked only on
+// the fresh object is never asked in the states where its answer could have
+// drifted, so the state check asks it in every state, and the derived
+// predicate (IsAdmin) is judged on the value it returns like on any other user
+// value. The accessors change nothing: no state update.
+func (m *Model) accessor(c Call, o Outcome) []Mismatch {
+	if o.Err != EOk {
+		return outcomeMismatch("returns", o)
+	}
+
+	name := m.AdminG
+	if c.M == "AdminUser" {
+		name = m.AdminU
+	}
+
+	if bad := wantVal(o, name); bad != nil {
+		return bad
+	}
+
+	var bad []Mismatch
+
+	id := o.Gid
+	if c.M == "AdminUser" {
+		id = o.Uid
+	}
+
+	if id != 0 {
+		bad = append(bad, Mismatch{Kind: "admin-identity", Want: "the built-in entry with id 0", Got: "an entry with another id"})
+	}
+
+	if c.M == "AdminUser" {
+		if o.Gid != 0 {
+			bad = append(bad, Mismatch{Kind: "admin-identity", Want: "a user whose primary group is the group with id 0", Got: "a user of another group"})
+		}
+
+		// exactly when: IsAdmin <=> uid 0 on this value too, hence true for the right one
+		bad = append(bad, adminCheck(o)...)
+	}
+
+	return bad
 }
 
 func wantErr(class string, o Outcome) []Mismatch {
@@ -390,6 +442,10 @@ func (m *Model) ArgClass(c Call) string {
 		}
 
 		return "id=" + cl
+	case "AdminUser": // what is registered under the administrator's name now
+		return "user=" + m.userClass(m.AdminU)
+	case "AdminGroup":
+		return "group=" + m.groupClass(m.AdminG)
 	}
 
 	return ""
